@@ -2,6 +2,7 @@ package main
 
 import (
 	"fmt"
+	"strings"
 
 	"github.com/safing/portbase/updater"
 
@@ -24,7 +25,8 @@ type nameCase struct {
 
 func genNameCase(seed, no uint64) nameCase {
 	r := vlib.NewRand(seed, "C19/name", no)
-	n := nameCase{Kind: "name", Dir: genFmtDir(r), Name: genFmtName(r), Ext: genFmtExt(r), Version: genFmtVersion(r)}
+	ver := genFmtVersion(r)
+	n := nameCase{Kind: "name", Dir: genFmtDir(r, ver), Name: genFmtName(r), Ext: genFmtExt(r), Version: ver}
 	if n.Name == "" && n.Ext == "" {
 		n.Name = "f"
 	}
@@ -68,6 +70,11 @@ func checkName(b *vlib.Batch, n nameCase) {
 	}
 	if n.Ext != "" {
 		b.Count("name_with_extension", 1)
+	}
+	if strings.Contains(n.Dir, verMarker(n.Version)) {
+		b.Count("name_dir_contains_file_version_marker", 1) // equal to it or extending it
+	} else if refMarkerRe.MatchString(n.Dir) {
+		b.Count("name_dir_contains_other_version_marker", 1)
 	}
 	if len(n.Version) > 0 && refMarkerRe.MatchString(n.Path) && n.Version[len(n.Version)-1] >= 'a' {
 		b.Count("name_with_prerelease_tag", 1)
